@@ -22,6 +22,7 @@ def run_ops(ck, drv, cases, want="valid", label="ops", trace_module="TraceOps", 
     accepts are reported (value properties); invalid: those on cases the specification rejects (C15); all: both."""
     if not cases:
         return 0
+    ck.all_cases.extend(cases)
     files = vlib.run_driver(drv, cases, ck.workdir, label, nproc=nproc)
     mism, st = vlib.validate_traces(trace_module, files, env=env)
     ck.add_trace_stats(st, len(cases))
